@@ -55,6 +55,8 @@ ASSUMPTIONS = [
     'an internal error of a refactoring on a NONMEM model whose innermost frame is the NONMEM code generator/parser is attributed to '
     'update_source (property C02) when the same refactoring works on the generic-format copy of the model; the oracle then continues '
     'on the generic copy',
+    'the refactor and evaluators oracles run in a forked child process per case (pharmpy.basic.Expr / symengine can kill the '
+    'interpreter); a child killed by a signal is a violation interpreter-crash:signal<N>@<innermost pharmpy frame of the faulthandler dump>',
     'finite differences: central, h=1e-6, accepted only where h and 2h estimates agree (1e-6 relative) and no relational / floor / '
     'Abs / sign / Max / Min node changes its discrete state within +-1e-4',
 ]
@@ -90,10 +92,7 @@ def gen_model(gspec, ytail=0):
     """c01 generator spec -> (model, text). Reading is not under test here."""
     from pharmpy.modeling import read_model_from_string
 
-    # MOD is switched off: pharmpy.basic.Expr.subs (symengine) kills the interpreter (segmentation fault) when a
-    # Piecewise is substituted into a condition inside Mod(Piecewise(...), ...) -- reported, cannot be guarded in-process
     try:
-        gspec = dict(gspec, feat=dict(gspec.get('feat') or {}, mod=False))
         b = c01.build(gspec)
     except (KeyError, IndexError, TypeError, ValueError, ZeroDivisionError, AttributeError) as e:
         raise Reject(f'generator spec not buildable: {type(e).__name__}')
@@ -105,8 +104,6 @@ def gen_model(gspec, ytail=0):
         _ = m.statements, m.parameters, m.random_variables
     except Exception as e:  # noqa  (property C01/C03 territory)
         raise Reject(f'generated model not readable: {type(e).__name__}')
-    if _has_mod(m):
-        raise Reject('model contains Mod (symengine subs segfault)')
     return m, text
 
 
@@ -115,6 +112,42 @@ def _has_mod(m):
     from pharmpy.model import Assignment
 
     return any(isinstance(s, Assignment) and s.expression._sympy_().has(sympy.Mod) for s in m.statements)
+
+
+def _has_undef_fn(m):
+    import sympy
+    from sympy.core.function import AppliedUndef
+    from pharmpy.model import Assignment
+
+    for s in m.statements:
+        if isinstance(s, Assignment):
+            for f in s.expression._sympy_().atoms(sympy.Function):
+                name = getattr(f.func, '__name__', str(f.func))
+                if (isinstance(f, AppliedUndef) and not name.startswith('A_')) or not type(f).__module__.startswith('sympy'):
+                    return True
+    return False
+
+
+_NOTE_FILE = [None]
+
+
+def note_model(m):
+    """shapes that matter when the interpreter dies (read by the parent of the isolated child)"""
+    f = _NOTE_FILE[0]
+    if f is None:
+        return
+    flags = []
+    try:
+        if _has_mod(m):
+            flags.append('mod')
+        if _has_undef_fn(m):
+            flags.append('undef-fn')
+    except Exception:  # noqa
+        return
+    f.seek(0)
+    f.truncate()
+    f.write('+'.join(flags))
+    f.flush()
 
 
 YTAILS = [
@@ -331,6 +364,7 @@ def build_model(spec):
         if m2 is not m:
             m = m2
             labels.append('prior:' + label)
+    note_model(m)
     return m, labels
 
 
@@ -705,7 +739,14 @@ def apply_refactoring(rname, fn, m, spec, classes):
     from pharmpy.model import Model as BaseModel
     from pharmpy.modeling import convert_model
 
-    allowed = DOC_ERRORS + ((FileNotFoundError,) if rname == 'reload_dataset' else ())
+    # documented refusals: create_joint_distribution (ValueError: IOV etas, fewer than two etas), load_dataset (no path /
+    # missing file), NotImplementedError anywhere; the other refactorings document no refusal, so a ValueError from them
+    # (e.g. Model.replace rejecting the rewritten statements: 'Symbol X is not defined') is reported like an internal error
+    allowed = (NotImplementedError,)
+    if rname in ('create_joint_distribution', 'join_then_split'):
+        allowed += (ValueError,)
+    if rname == 'reload_dataset':
+        allowed += (ValueError, FileNotFoundError)
     try:
         return _quiet(fn, m, spec), m
     except (Violation, Reject, HarnessError):
@@ -1153,6 +1194,7 @@ def eval_model_source(spec):
             labels.append('prior:' + label)
     if m.statements.ode_system is not None:
         raise Reject('ODE model: extractors document non-ODE models only')
+    note_model(m)
     return m, labels
 
 
@@ -1310,7 +1352,8 @@ def run_evaluators(spec):
     from pharmpy.model import Assignment as _Asg
 
     has_lg = any(isinstance(s_, _Asg) and s_.expression._sympy_().has(_sy.loggamma) for s_ in m.statements)
-    ccond = 'loggamma:' if has_lg else ''
+    # functions the numpy lambdify of eval_expr cannot evaluate on arrays (GAMLN -> math.lgamma, PHI -> undefined name)
+    ccond = 'unsupported-function:' if has_lg or _has_undef_fn(m) else ''
     evals = 0
     inputs = set(m.parameters.names) | set(rvs.names) | set(m.datainfo.names) | {'t'}
     # symengine signals an undefined value (division by zero at eta=0, Piecewise without matching branch) by RuntimeError
@@ -1575,6 +1618,120 @@ EVAL_SPEC = st.fixed_dictionaries(
 # ------------------------------------------------------------------------------------------
 
 
+# ------------------------------------------------------------------------------------------
+# process isolation: pharmpy.basic.Expr (symengine) can kill the interpreter (segmentation fault in subs / __float__).
+# Every oracle runs in a forked child; a child killed by a signal is reported as a violation with the faulting frame.
+
+
+def _prewarm(spec):
+    """load what the case needs into the caches of this (parent) process: known-safe, and not lost with the child"""
+    src = spec.get('src') if isinstance(spec, dict) else None
+    try:
+        if isinstance(src, dict):
+            if src.get('kind') == 'solved':
+                names = [n for n in ('pheno', 'basic_iv', 'basic_oral', 'mox2', 'pheno_conc') if n in corpus_names()]
+                _solved(_corpus_name(src.get('name'), names))
+            elif src.get('kind') == 'linear':
+                _pheno_linear()
+            elif src.get('kind') != 'gen':
+                corpus.get(_corpus_name(src.get('name'), corpus_names()))
+        elif isinstance(spec, dict) and 'start' in spec:
+            names = [n for n in ODE_STARTS if n in corpus_names()]
+            corpus.get(_corpus_name(spec.get('start'), names))
+    except Reject:
+        pass
+
+
+def _crash_frame(text):
+    """innermost pharmpy frame of a faulthandler dump ('most recent call first')"""
+    for line in text.splitlines():
+        mm = re.search(r'File "([^"]*/src/pharmpy/[^"]*)", line \d+ in (\S+)', line)
+        if mm:
+            return mm.group(1).rsplit('/src/pharmpy/', 1)[1] + ':' + mm.group(2)
+    return 'unknown'
+
+
+def isolated(run):
+    def wrapper(spec):
+        import faulthandler
+        import pickle
+        import tempfile
+        import traceback
+
+        if os.environ.get('PV_C07_NOFORK'):
+            return run(spec)
+        _prewarm(spec)
+        rfd, wfd = os.pipe()
+        ftmp = tempfile.TemporaryFile(mode='w+')
+        ntmp = tempfile.TemporaryFile(mode='w+')
+        pid = os.fork()
+        if pid == 0:  # child
+            code = 0
+            try:
+                os.close(rfd)
+                faulthandler.enable(file=ftmp, all_threads=False)
+                _NOTE_FILE[0] = ntmp
+                try:
+                    info = run(spec)
+                    out = ('ok', (info.nontrivial, tuple(info.classes), info.key, info.render, info.evals))
+                except Reject as r:
+                    out = ('reject', r.why)
+                except Violation as v:
+                    out = ('fail', (v.clause, repr(v.observed)[:2000] if not isinstance(v.observed, (int, float, str, list, type(None))) else v.observed, repr(v.expected)[:2000] if not isinstance(v.expected, (int, float, str, list, type(None))) else v.expected, v.detail))
+                except HarnessError as h:
+                    out = ('harness', f'HarnessError: {h}')
+                except BaseException:  # noqa
+                    out = ('harness', traceback.format_exc())
+                try:
+                    data = pickle.dumps(out)
+                except Exception:  # noqa
+                    data = pickle.dumps(('harness', 'unpicklable result: ' + repr(out)[:2000]))
+                with os.fdopen(wfd, 'wb') as w:
+                    w.write(data)
+            except BaseException:  # noqa
+                code = 3
+            finally:
+                os._exit(code)
+        os.close(wfd)
+        chunks = []
+        with os.fdopen(rfd, 'rb') as r:
+            while True:
+                b = r.read(65536)
+                if not b:
+                    break
+                chunks.append(b)
+        _, status = os.waitpid(pid, 0)
+        if os.WIFSIGNALED(status):
+            ftmp.seek(0)
+            dump = ftmp.read()
+            ftmp.close()
+            sig = os.WTERMSIG(status)
+            ntmp.seek(0)
+            flags = ntmp.read().strip()
+            ntmp.close()
+            raise Violation(
+                f'interpreter-crash:{flags + ":" if flags else ""}signal{sig}@{_crash_frame(dump)}',
+                detail=f'the Python interpreter was killed by signal {sig} inside pharmpy\n' + dump[:1500],
+            )
+        ftmp.close()
+        ntmp.close()
+        if not chunks:
+            raise HarnessError(f'isolated child returned nothing (exit status {status})')
+        kind, payload = pickle.loads(b''.join(chunks))
+        if kind == 'ok':
+            nt, classes, key, render, evals = payload
+            return CaseInfo(nontrivial=nt, classes=classes, key=key, render=render, evals=evals)
+        if kind == 'reject':
+            raise Reject(payload)
+        if kind == 'fail':
+            clause, obs, exp, detail = payload
+            raise Violation(clause, observed=obs, expected=exp, detail=detail)
+        raise HarnessError(payload)
+
+    wrapper.__name__ = run.__name__ + '_isolated'
+    return wrapper
+
+
 def selfcheck():
     """the comparison machinery sees a changed statement, and finite differences reproduce a known derivative"""
     from pharmpy.basic import Expr
@@ -1603,9 +1760,9 @@ def selfcheck():
 
 
 SUBCHECKS = [
-    SubCheck('refactor', lambda: REFACTOR_SPEC, run_refactor, quick=1200, thorough=24000, quick_time=200, thorough_time=1500),
-    SubCheck('solve_ode', lambda: SOLVE_SPEC, run_solve_ode, quick=64, thorough=640, quick_time=200, thorough_time=1500),
-    SubCheck('evaluators', lambda: EVAL_SPEC, run_evaluators, quick=400, thorough=8000, quick_time=200, thorough_time=1500),
+    SubCheck('refactor', lambda: REFACTOR_SPEC, isolated(run_refactor), quick=1500, thorough=24000, quick_time=240, thorough_time=1500),
+    SubCheck('solve_ode', lambda: SOLVE_SPEC, run_solve_ode, quick=128, thorough=1280, quick_time=240, thorough_time=1500),
+    SubCheck('evaluators', lambda: EVAL_SPEC, isolated(run_evaluators), quick=720, thorough=12000, quick_time=240, thorough_time=1500),
 ]
 
 KNOWN_PREDICATES = {}
